@@ -217,6 +217,83 @@ func runConc(c *Ctx) {
 		c.Nontrivial("concurrent-readers")
 		c.End()
 	}
+	// ---- read-only, small collection: n <= 2M+1 items, n <= ef (C07's regime). Every one of many
+	// simultaneous searches must return exactly the brute-force ranking, as a lone search does.
+	for variant := 0; variant < 2; variant++ {
+		c.Begin(fmt.Sprintf("concurrent read-only searches on a small insert-only collection (variant %d)", variant))
+		r := rng.Fork()
+		sp, spName := newSpace(variant * 2)
+		g := hnswCfg{m: 6, ef: 24, efC: 48, heur: variant == 1, keep: true}
+		g.mMax, g.mMax0 = g.m, 2*g.m
+		dim := 3
+		h := index.NewHnsw(uint(dim), sp, g.options()...)
+		N := 2*g.m + 1
+		vecs := genVectors(r, N+1, dim, false)
+		for id := 1; id <= N; id++ {
+			h.Insert(rid(id), vecs[id], nil, r.Intn(3))
+		}
+		G, per := 12, c.Pick(1500, 20000)
+		var mu sync.Mutex
+		wrong, first := 0, ""
+		var wg sync.WaitGroup
+		for gi := 0; gi < G; gi++ {
+			gr := r.Fork()
+			wg.Add(1)
+			go func(gr *Rng) {
+				defer wg.Done()
+				defer func() {
+					if p := recover(); p != nil {
+						mu.Lock()
+						wrong++
+						first = "panic: " + fmt.Sprint(p)
+						mu.Unlock()
+					}
+				}()
+				for i := 0; i < per; i++ {
+					q := make(amath.Vector, dim)
+					for j := range q {
+						q[j] = float32(gr.Norm())
+					}
+					k := 1 + gr.Intn(N)
+					res, _ := h.Search(context.Background(), q, uint(k))
+					all := make([]uint32, 0, N)
+					for id := 1; id <= N; id++ {
+						all = append(all, f32bits(sp.Distance(q, vecs[id])))
+					}
+					sort.Slice(all, func(a, b int) bool { return all[a] < all[b] })
+					ok := len(res) == k
+					for pos := 0; ok && pos < k; pos++ {
+						id := int(res[pos].Id[0]) | int(res[pos].Id[1])<<8
+						if f32bits(res[pos].Score) != all[pos] || id < 1 || id > N || f32bits(sp.Distance(q, vecs[id])) != all[pos] {
+							ok = false
+						}
+					}
+					if !ok {
+						mu.Lock()
+						wrong++
+						if first == "" {
+							var got []uint32
+							for _, x := range res {
+								got = append(got, f32bits(x.Score))
+							}
+							first = fmt.Sprintf("k=%d: returned score bits %v, the %d nearest have %v", k, got, k, all[:k])
+						}
+						mu.Unlock()
+					}
+				}
+			}(gr)
+		}
+		wg.Wait()
+		c.OpLocal("%s, heuristic=%v: %d items (= 2M+1, below ef=%d), %d goroutines x %d searches, k in 1..%d: %d answers differ from the brute-force ranking", spName, g.heur, N, g.ef, G, per, N, wrong)
+		c.Stats.Evaluations += G * per / 1000
+		if wrong > 0 {
+			msg := fmt.Sprintf("%d of %d simultaneous searches on a %d-item insert-only collection (M=%d, ef=%d) did not return exactly the k nearest in order; first: %s", wrong, G*per, N, g.m, g.ef, first)
+			c.Violate("C07", "C07/concurrent-readers/not-exact", msg, c.History())
+			c.Violate("C13", "C13/concurrent-readers/not-exact", msg, c.History())
+		}
+		c.Nontrivial("concurrent-readers-small")
+		c.End()
+	}
 	if c.Args["mode"] == "readers" {
 		return
 	}
